@@ -109,6 +109,7 @@ func (ev *Evidence) write() error {
 			"stub": []string{"kill inside an uninstrumented writer is emulated as kill + truncation of its declared output", "cache ageing emulated by shifting mtimes"},
 		},
 	}
+	cov["simulated_time"] = "no simulated clock: garble has no timers, deadlines or retries for these properties to depend on; progress is measured in gated events (simulated_steps). The one time-dependent behaviour, cache trimming after 5 days, is driven by ageing file mtimes by 7 days in the start states named 'aged'."
 	if ev.wall > 0 {
 		cov["runs_per_hour"] = int(float64(ev.SimRuns) / ev.wall * 3600)
 		cov["cases_per_hour"] = int(float64(ev.Evaluations) / ev.wall * 3600)
